@@ -83,6 +83,11 @@ def _vectors(n_calls: int, generated: list[int], enum_limit: int) -> list[list[s
         for combo in itertools.product(OUT, repeat=n_calls):
             if list(combo) != vecs[0]:
                 vecs.append(list(combo))
+    else:
+        # the manager outlives a request: two more requests on the same instance, with other generated
+        # outcomes and with none failing (a result must not inherit anything from the request before it)
+        second = [OUT[generated[(i + 3) % len(generated)]] for i in range(n_calls)]
+        vecs += [second, ["ok"] * n_calls]
     return vecs
 
 
